@@ -122,13 +122,27 @@ def params_shape(psel, leaf):
     return {"protocolVersion": leaf, "clientInfo": {"name": leaf}, "capabilities": {}}
 
 
+FORM = [0]  # 0: the unified JSONRPCMessage (what the parser produces); 1: the typed JSONRPCRequest / JSONRPCNotification
+
+
 def _msg(method, has_id, rid, params):
     kw = {"jsonrpc": "2.0", "method": method}
     if has_id:
         kw["id"] = rid
     if params is not None:
         kw["params"] = params
+    if FORM[0] == 1:
+        return JM.JSONRPCRequest(**kw) if has_id else JM.JSONRPCNotification(**kw)
     return JSONRPCMessage(**kw)
+
+
+def dispatch_typed(method, has_id, rid, psel, leaf, hsel, tsel):
+    """the same dispatch for messages handed over as the typed request / notification classes"""
+    FORM[0] = 1
+    try:
+        return dispatch(method, has_id, rid, psel, leaf, hsel, exc_text(tsel))
+    finally:
+        FORM[0] = 0
 
 
 def dispatch(method, has_id, rid, psel, leaf, hsel, text="boom"):
